@@ -115,6 +115,17 @@ Fixpoint chunk2 {A} (l : list A) : list (A * A) :=
   end.
 Definition flatten2 {A} (l : list (A * A)) : list A := flat_map (fun p => [fst p; snd p]) l.
 
+(* the same with the chunk size and the two positions inside a chunk as the code states them (generated farr_chunk / warr_chunk):
+   slice::chunks_exact(size) yields the full chunks only; a position outside the chunk would panic (modelled as: no pair) *)
+Fixpoint chunks {A} (fuel size : nat) (l : list A) : list (list A) :=
+  match fuel with
+  | 0 => []
+  | S f => if (size =? 0)%nat || (length l <? size)%nat then [] else firstn size l :: chunks f size (skipn size l)
+  end.
+Definition array_pairs {A} (cfg : nat * (nat * nat)) (l : list A) : list (A * A) :=
+  flat_map (fun c => match nth_error c (fst (snd cfg)), nth_error c (snd (snd cfg)) with Some a, Some b => [(a, b)] | _, _ => [] end)
+           (chunks (length l) (fst cfg) l).
+
 (* ------------------------------------------------------------------------------------------------ spaces *)
 (* an axis is (first endpoint, second endpoint, count); a space is a pair of axes *)
 Definition axis (T : Type) := (T * T * nat)%type.
